@@ -2,6 +2,7 @@ package main
 
 import (
 	"fmt"
+	"go/constant"
 	"go/token"
 	"go/types"
 	"strings"
@@ -33,7 +34,7 @@ func init() {
 
 func runC04(p *Prog, r *Report) {
 	r.MinInstances["C04.R1"] = 2
-	r.MinInstances["C04.R2"] = 4
+	r.MinInstances["C04.R2"] = 2
 	r.MinInstances["C04.R3"] = 3
 	r.MinInstances["C04.R4"] = 6
 	r.MinInstances["C04.R5"] = 4
@@ -487,6 +488,47 @@ func c04R4(p *Prog, r *Report) {
 			}
 		}
 	})
+	if !hi || !lo {
+		// the same clamp written with math.Max / math.Min around the value that is rounded and stored
+		Instrs(fn, func(in ssa.Instruction) {
+			st, ok := in.(*ssa.Store)
+			if !ok {
+				return
+			}
+			if _, isIA := st.Addr.(*ssa.IndexAddr); !isIA {
+				return
+			}
+			seen := map[ssa.Value]bool{}
+			var walk func(v ssa.Value, d int)
+			walk = func(v ssa.Value, d int) {
+				if v == nil || seen[v] || d > 8 {
+					return
+				}
+				seen[v] = true
+				if call, ok := v.(*ssa.Call); ok {
+					name := CalleeName(&call.Call)
+					for _, a := range call.Call.Args {
+						if c, isC := a.(*ssa.Const); isC && c.Value != nil {
+							f, _ := constant.Float64Val(constant.ToFloat(c.Value))
+							if name == "math.Min" && f == 65535 {
+								hi = true
+							}
+							if name == "math.Max" && f == 0 {
+								lo = true
+							}
+						}
+					}
+				}
+				if instr, ok := v.(ssa.Instruction); ok {
+					var ops []*ssa.Value
+					for _, o := range instr.Operands(ops) {
+						walk(*o, d+1)
+					}
+				}
+			}
+			walk(st.Val, 0)
+		})
+	}
 	r.Check(hi && lo, "C04.R4", "the mixed value saturates at 0 and 65535", p.Pos(fn.Pos()), "two clamping arms", fmt.Sprintf("saturation arms: high=%v low=%v", hi, lo))
 }
 
